@@ -123,11 +123,16 @@ def _none_only(f, vp, ret):
     for n in cfg.nodes():
         if cfg.kind[n] != 'if':
             continue
-        t = unparse(cfg.stmt[n].test).replace(' ', '')
-        if t == '%sisNone' % vp:
-            pruned.add((n, 'true'))
-        elif t in ('%sisnotNone' % vp, vp):
-            pruned.add((n, 'false'))
+        from .. import cond
+        try:
+            fm = cond.formula(cfg.stmt[n].test, f.node)
+            none = cond.T('is|%s|%s' % tuple(sorted(('None', vp))))
+            if cond.equivalent(fm, none) or cond.equivalent(fm, cond.Not(cond.T(vp))):
+                pruned.add((n, 'true'))
+            elif cond.equivalent(fm, cond.Not(none)) or cond.equivalent(fm, cond.T(vp)):
+                pruned.add((n, 'false'))
+        except ValueError:
+            pass
     rn = cfg.node_for(ret)
     if rn is None:
         return False
